@@ -112,8 +112,11 @@ def check_C14(chk):
                 if run.exit == 0:
                     chk.violation("overrun-success-%s" % (mode if isinstance(mode, str) else "single"),
                                   "test t%d ran past its 1 s limit (stopped after %.1f s) and the run's exit status is 0, mode %s" % (t.tid, run.elapsed, mode), rp)
-                if run.elapsed > 1 + 2.5:
+                # generous: the machine may be busy; a limit that is ignored shows up as the 30 s time-out above
+                if run.elapsed > 1 + 14:
                     chk.violation("stopped-late", "the run took %.1f s with a 1 s limit" % run.elapsed, rp)
+                elif run.elapsed > 1 + 2.5:
+                    chk.count("stopped-later-than-2.5s-after-the-limit (busy machine)")
                 if mode == "forked":
                     td = dict((n, c) for n, c in L.log_tdone(run))
                     if td.get(t.name, (0, 0, 0, 0))[3] != 1:
